@@ -48,6 +48,19 @@ fn main() {
             let states = arg(&args, "--states");
             std::process::exit(e2::crashee_main(&case, &root, &marker, states.as_deref()));
         }
+        "ztest" => {
+            let mut hit = 0;
+            for (i, len) in [4096u32, 4500, 5000, 6054, 7000, 8191, 8999].iter().enumerate() {
+                let v = case::B::Z { len: *len, seed: i as u8 }.mat();
+                let c = lz4_flex::compress(&v).len();
+                println!("len {} compressed {}", v.len(), c);
+                if c == v.len() {
+                    hit += 1;
+                }
+            }
+            println!("{hit} exact");
+            return;
+        }
         "mtcrashee" => {
             let root = arg(&args, "--root").expect("--root");
             let out = arg(&args, "--out").expect("--out");
